@@ -25,7 +25,7 @@ RENAMES = ['-Dmain=lbzip2_main', '-Dpthread_create=vs_create', '-Dpthread_join=v
            '-Dsigaction=vs_sigaction', '-Dpthread_sigmask=vs_sigmask', '-Dsigprocmask=vs_procmask',
            '-Dsigpending=vs_sigpending', '-D_exit=vs_exit', '-Disatty=vs_isatty',
            '-Dflockfile=vs_flockfile', '-Dfunlockfile=vs_funlockfile',
-           '-Dmalloc=vs_malloc', '-Dfree=vs_free', '-Dclose=vs_close']
+           '-Dfflush=vs_fflush', '-Dmalloc=vs_malloc', '-Dfree=vs_free', '-Dclose=vs_close']
 
 # calls that glibc redirects by asm label (open -> open64 ...) cannot be renamed by the
 # preprocessor; their undefined symbols are renamed in the compiled objects instead
@@ -38,6 +38,8 @@ VARIANTS = {
     'asan': ('gcc', ['-O1', '-g', '-fsanitize=address,undefined', '-fno-sanitize-recover=undefined',
                      '-fno-omit-frame-pointer'], ['-fsanitize=address,undefined']),
     'tsan': ('clang', ['-O1', '-g', '-fsanitize=thread'], ['-fsanitize=thread']),
+    # clang's ThreadSanitizer instrumentation, but the callbacks are the happens-before detector of vsched.c (no tsan runtime)
+    'hbrace': ('clang', ['-O1', '-g', '-fsanitize=thread'], []),
     'msan': ('clang', ['-O1', '-g', '-fsanitize=memory', '-fno-omit-frame-pointer'], ['-fsanitize=memory']),
     'stock': ('gcc', ['-O2', '-g'], []),
 }
@@ -143,7 +145,7 @@ def lbzx(variant='fast'):
         # the scheduler is never instrumented (see vsched.c)
         gcc = 'gcc' if cc == 'gcc' else 'clang'
         for f in ('vsched', 'explore'):
-            _run([gcc, '-O2', '-g', '-fno-pie', '-Wall'] + (['-DVS_TSAN'] if variant == 'tsan' else []) +
+            _run([gcc, '-O2', '-g', '-fno-pie', '-Wall'] + (['-DVS_TSAN'] if variant == 'tsan' else []) + (['-DVS_HB'] if variant == 'hbrace' else []) +
                  ['-I' + os.path.join(FW, 'lbzx'), '-c',
                   os.path.join(FW, 'lbzx', f + '.c'), '-o', os.path.join(d, f + '.o')])
         _run([cc, '-no-pie', '-o', exe + '.tmp', os.path.join(d, 'vsched.o'), os.path.join(d, 'explore.o')]
